@@ -2,9 +2,12 @@ import NTV.Proofs.Lemmas.PolyModBasics
 import NTV.Proofs.Lemmas.PolyDivremMod
 import NTV.Proofs.Lemmas.PolyGcdMod
 import NTV.Model.PolyModFactor
+import NTV.Proofs.Lemmas.FactorModPIrred
 /-! # C08 — factorisation modulo a prime: what is proved about the model so far.
 Irreducibility, distinctness and the product identity are certified on every explored case by an
-independent oracle (Rabin's test cross-checked by brute force, product modulo p). -/
+independent oracle (Rabin's test cross-checked by brute force, product modulo p).
+(Later addition: they are now also proved for all inputs and all draw streams, see `factorization_correct`
+at the end of this file.) -/
 namespace NTV.C08
 open NTV.PolyMod
 
@@ -44,5 +47,226 @@ theorem input_reduction (f : List Int) (p : Int) (hp : 0 < p) :
     NTV.PolyMod.Reduced p (NTV.PolyMod.polyMod f p) ∧ NTV.PolyG.Canon (NTV.PolyMod.polyMod f p) ∧
     NTV.Hensel.PCong p (NTV.PolyG.toPoly (NTV.PolyMod.polyMod f p)) (NTV.PolyG.toPoly f) :=
   NTV.PolyMod.polyMod_reduced f p hp
+
+
+/-! ## The factorisation itself
+
+Notation. `Good p l` (= `Reduced p l ∧ Canon l`): `l` is a canonical coefficient list with entries in
+[0, p). `factorProduct fs = ∏ gᵉ`, `partProduct ds = ∏ g`, `listProduct l = ∏ g` in ℤ[X].
+`PCong p F G`: F ≡ G modulo p. The draw stream `s` is universally quantified ("all random draws"); the
+statements are about the runs that return `.ok` (a run on an exhausted stream / fuel is `.error
+"inconclusive …"`, a Rust panic is `.error "panic …"`). -/
+open Polynomial NTV.PolyG NTV.Hensel
+
+/-- decidable equality of results, for the examples -/
+instance : DecidableEq (Except String Factors) := fun a b =>
+  match a, b with
+  | .ok x, .ok y => if h : x = y then isTrue (by rw [h]) else isFalse (by intro e; cases e; exact h rfl)
+  | .error x, .error y => if h : x = y then isTrue (by rw [h]) else isFalse (by intro e; cases e; exact h rfl)
+  | .ok _, .error _ => isFalse (by intro e; cases e)
+  | .error _, .ok _ => isFalse (by intro e; cases e)
+
+/-- Stage 1, `squarefree(poly, p, pusize)` (Cohen 3.4.2 with p-th roots): for every prime p and every
+non-zero `poly` reduced modulo p, with `pusize = p` (or any `pusize` when deg poly < p: then no p-th
+root is taken), the returned pairs (A, m) satisfy c · ∏ Aᵐ ≡ poly (mod p) for an integer unit
+0 < c < p. The parts A are **not** monic in general (`squarefree [1,2,1] 5 5 = [([2,2],2)]`): they are
+non-zero canonical lists with coefficients in [0, p); every m ≥ 1. -/
+theorem squarefree_product (p : Nat) (hp : p.Prime) (poly : List Int) (pusize : Nat) (fs : Factors)
+    (hred : Reduced (p : Int) poly) (hcan : Canon poly) (hne : poly ≠ [])
+    (hpu : pusize = p ∨ poly.length ≤ p) (h : squarefree poly (p : Int) pusize = .ok fs) :
+    (∃ c : Int, 0 < c ∧ c < p ∧ PCong (p : Int) (C c * factorProduct fs) (toPoly poly)) ∧
+    ∀ x ∈ fs, Reduced (p : Int) x.1 ∧ Canon x.1 ∧ x.1 ≠ [] ∧ 1 ≤ x.2 := by
+  have : Fact p.Prime := ⟨hp⟩
+  obtain ⟨h1, h2, _⟩ := NTV.PolyMod.squarefree_product p poly pusize fs ⟨⟨hred, hcan⟩, hne⟩ hpu h
+  refine ⟨pcong_of_associated p _ _ ?_, fun x hx => ⟨(h2 x hx).1.1.1, (h2 x hx).1.1.2, (h2 x hx).1.2, (h2 x hx).2⟩⟩
+  rw [map_factorProduct]; exact h1
+
+example : squarefree [1, 2, 1] 5 5 = .ok [([2, 2], 2)] := by decide +kernel
+example : squarefree [1, 0, 0, 1] 3 3 = .ok [([1, 1], 3)] := by decide +kernel   -- a p-th root is taken
+
+/-- Stage 2, `degree(poly, p)` (distinct degree): the returned parts multiply to `poly` up to a unit,
+for every prime p and every non-zero `poly` reduced modulo p -/
+theorem degree_product (p : Nat) (hp : p.Prime) (poly : List Int) (ds : Factors)
+    (hred : Reduced (p : Int) poly) (hcan : Canon poly) (hne : poly ≠ [])
+    (h : degree poly (p : Int) = .ok ds) :
+    (∃ c : Int, 0 < c ∧ c < p ∧ PCong (p : Int) (C c * partProduct ds) (toPoly poly)) ∧
+    ∀ x ∈ ds, Reduced (p : Int) x.1 ∧ Canon x.1 ∧ x.1 ≠ [] := by
+  have : Fact p.Prime := ⟨hp⟩
+  obtain ⟨h1, h2⟩ := NTV.PolyMod.degree_product p poly ds ⟨⟨hred, hcan⟩, hne⟩ h
+  refine ⟨pcong_of_associated p _ _ ?_, fun x hx => ⟨(h2 x hx).1.1, (h2 x hx).1.2, (h2 x hx).2⟩⟩
+  rw [map_partProduct]; exact h1
+
+example : degree [2, 0, 0, 0, 1] 3 = .ok [([2, 0, 1], 1), ([1, 0, 1], 2)] := by decide +kernel
+
+/-- Stage 3, `final_split(poly, p, d)` (Cantor–Zassenhaus for odd p with the random polynomials read
+from the draw stream; the trace-like map for p = 2): for every stream the returned pieces multiply to
+the input piece up to a unit (every split replaces u by (g, u/g) with g ∣ u) -/
+theorem finalSplit_product (p : Nat) (hp : p.Prime) (poly : List Int) (d : Nat) (s s' : NTV.Draw.Stream)
+    (res : List (List Int)) (hred : Reduced (p : Int) poly) (hcan : Canon poly) (hne : poly ≠ [])
+    (h : finalSplit poly (p : Int) d s = .ok (res, s')) :
+    (∃ c : Int, 0 < c ∧ c < p ∧ PCong (p : Int) (C c * listProduct res) (toPoly poly)) ∧
+    (∀ x ∈ res, Reduced (p : Int) x ∧ Canon x ∧ x ≠ []) ∧ d ≠ 0 := by
+  have : Fact p.Prime := ⟨hp⟩
+  obtain ⟨h1, h2, h3⟩ := NTV.PolyMod.finalSplit_product p poly d s res s' ⟨⟨hred, hcan⟩, hne⟩ h
+  refine ⟨pcong_of_associated p _ _ ?_, fun x hx => ⟨(h2 x hx).1.1, (h2 x hx).1.2, (h2 x hx).2⟩, h3⟩
+  rw [map_listProduct]; exact h1
+
+example : finalSplit [2, 0, 1] 3 1 [[0,0,0,0],[0,0,0,64]] = .ok ([[2, 1], [1, 1]], []) := by decide +kernel
+example : finalSplit [1, 1, 1, 1, 1, 1, 1] 2 3 [] = .ok ([[1, 1, 0, 1], [1, 0, 1, 1]], []) := by decide +kernel
+
+/-- **C08, product identity.** For every prime p, every f ∈ ℤ[x], every draw stream s: if
+`factorize_mod_p(f, p, pusize)` returns the pairs (gᵢ, eᵢ) then lc(f mod p) · ∏ gᵢ^eᵢ ≡ f (mod p),
+i.e. ∏ gᵢ^eᵢ ≡ f / lc(f mod p). The machine-word copy `pusize` must be p when p fits a word
+(p < 2⁶⁴); for larger p it is arbitrary (the length of a coefficient vector is below 2⁶⁴). -/
+theorem product_identity (p : Nat) (hp : p.Prime) (f : List Int) (pusize : Nat) (s : NTV.Draw.Stream)
+    (fs : Factors) (hpu : p < 2 ^ 64 → pusize = p) (hlen : 2 ^ 64 ≤ p → f.length < 2 ^ 64)
+    (h : factorizeModP f (p : Int) pusize s = .ok fs) :
+    PCong (p : Int) (C (lc (polyMod f p)) * factorProduct fs) (toPoly f) := by
+  have : Fact p.Prime := ⟨hp⟩
+  have hpu' : pusize = p ∨ f.length ≤ p := by
+    rcases Nat.lt_or_ge p (2 ^ 64) with h1 | h1
+    · exact Or.inl (hpu h1)
+    · exact Or.inr (by have := hlen h1; omega)
+  obtain ⟨h1, _, h3⟩ := factorizeModP_spec p f pusize s fs hpu' h
+  rw [pcong_iff_map, Polynomial.map_mul, map_factorProduct, map_C]
+  have hl := (natDegree_mp p (polyMod f p) (good_polyMod p hp.pos f) h3).2.1
+  rw [mp_polyMod] at hl
+  rw [eq_intCast, ← hl]
+  exact h1.symm
+
+/-- **C08, shape of the factors.** Every returned gᵢ is monic (`lc = 1`), canonical, with coefficients
+in [0, p), of degree ≥ 1 (`length ≥ 2`), and every eᵢ ≥ 1 -/
+theorem factor_shape (p : Nat) (hp : p.Prime) (f : List Int) (pusize : Nat) (s : NTV.Draw.Stream)
+    (fs : Factors) (hpu : p < 2 ^ 64 → pusize = p) (hlen : 2 ^ 64 ≤ p → f.length < 2 ^ 64)
+    (h : factorizeModP f (p : Int) pusize s = .ok fs) :
+    ∀ x ∈ fs, lc x.1 = 1 ∧ Reduced (p : Int) x.1 ∧ Canon x.1 ∧ 2 ≤ x.1.length ∧ 1 ≤ x.2 := by
+  have : Fact p.Prime := ⟨hp⟩
+  have hpu' : pusize = p ∨ f.length ≤ p := by
+    rcases Nat.lt_or_ge p (2 ^ 64) with h1 | h1
+    · exact Or.inl (hpu h1)
+    · exact Or.inr (by have := hlen h1; omega)
+  obtain ⟨_, h2, _⟩ := factorizeModP_spec p f pusize s fs hpu' h
+  intro x hx
+  obtain ⟨a, b, c, d⟩ := h2 x hx
+  exact ⟨b, a.1, a.2, c, d⟩
+
+/-- **C08, constant input.** When f mod p is a non-zero constant the result is the empty list (for
+every modulus p > 0, every `pusize`, every stream) -/
+theorem constant_input (p : Nat) (hp : 0 < p) (f : List Int) (pusize : Nat) (s : NTV.Draw.Stream)
+    (hc : (polyMod f p).length = 1) : factorizeModP f (p : Int) pusize s = .ok [] := by
+  have hg := good_polyMod p hp f
+  have hne : (polyMod f p).isEmpty = false := by
+    cases hq : polyMod f p <;> simp_all
+  have hd : degU (polyMod f p) = 0 := by simp [degU, hne, hc]
+  simp only [factorizeModP, squarefree, hne, Bool.false_eq_true, ↓reduceIte, polyMod_of_good p _ hg]
+  simp [sqOuter, hd, factorAll, bind, Except.bind, pure, Except.pure]
+
+/-- **C08, the machine-word copy of p.** For p ≥ 2⁶⁴ (p does not fit a word) the result — factor
+list, panic or inconclusive run alike — does not depend on `pusize`: any value, including 0, gives
+the same result. `f.length < 2⁶⁴` holds for every coefficient vector (a `Vec` has fewer than 2⁶⁴
+entries); without it the statement is false for the model (f = x^p). -/
+theorem pusize_irrelevant (p : Nat) (hp : p.Prime) (hbig : 2 ^ 64 ≤ p) (f : List Int)
+    (hlen : f.length < 2 ^ 64) (u u' : Nat) (s : NTV.Draw.Stream) :
+    factorizeModP f (p : Int) u s = factorizeModP f (p : Int) u' s := by
+  have : Fact p.Prime := ⟨hp⟩
+  exact factorizeModP_pusize_irrelevant p f u u' s (by omega)
+
+/-- more generally `pusize` is not read as soon as deg f < p -/
+theorem pusize_irrelevant_small_degree (p : Nat) (hp : p.Prime) (f : List Int) (hlen : f.length ≤ p)
+    (u u' : Nat) (s : NTV.Draw.Stream) :
+    factorizeModP f (p : Int) u s = factorizeModP f (p : Int) u' s := by
+  have : Fact p.Prime := ⟨hp⟩
+  exact factorizeModP_pusize_irrelevant p f u u' s hlen
+
+/-! Non-vacuity: the Rust unit tests x⁴ + x² mod 3 and x³ + 1 mod 2 (no draw is needed), x² − 1 mod 3
+and x⁴ − 1 mod 5 with explicit draw streams, a constant input, and `pusize = 0` with deg f < p. -/
+example : factorizeModP [0, 0, 1, 0, 1] 3 3 [] = .ok [([1, 0, 1], 1), ([0, 1], 2)] := by decide +kernel
+example : factorizeModP [1, 0, 0, 1] 2 2 [] = .ok [([1, 1], 1), ([1, 1, 1], 1)] := by decide +kernel
+example : factorizeModP [2, 0, 1] 3 3 [[0,0,0,0],[0,0,0,64]] = .ok [([2, 1], 1), ([1, 1], 1)] := by decide +kernel
+example : factorizeModP [5, 0, 3] 3 3 [] = .ok [] := constant_input 3 (by decide) _ _ _ (by decide +kernel)
+example : factorizeModP [2, 0, 1] 3 0 [[0,0,0,0],[0,0,0,64]] = .ok [([2, 1], 1), ([1, 1], 1)] := by
+  exact (pusize_irrelevant_small_degree 3 (by norm_num) [2, 0, 1] (by decide) 0 3 _).trans (by decide +kernel)
+example : PCong (3 : Int) (C 1 * factorProduct [([1, 0, 1], 1), ([0, 1], 2)]) (toPoly [0, 0, 1, 0, 1]) := by
+  have := product_identity 3 (by norm_num) [0, 0, 1, 0, 1] 3 [] _ (fun _ => rfl) (fun h => by omega)
+    (by decide +kernel : factorizeModP [0, 0, 1, 0, 1] ((3 : Nat) : Int) 3 [] = .ok [([1, 0, 1], 1), ([0, 1], 2)])
+  exact this
+
+
+/-! ## Irreducibility and distinctness -/
+
+/-- Stage 2 is sound and complete (`distinct_degree_sound`): for every prime p and every non-zero
+squarefree `poly` reduced modulo p, every irreducible factor of the part that `degree` returns under
+the label d has degree exactly d, and every irreducible factor q of `poly` divides a returned part
+labelled deg q. Hence a divisor of degree d of the part labelled d is irreducible. -/
+theorem distinct_degree_sound (p : Nat) (hp : p.Prime) (poly : List Int) (ds : Factors)
+    (hred : Reduced (p : Int) poly) (hcan : Canon poly) (hne : poly ≠ [])
+    (hsq : Squarefree ((toPoly poly).map (Int.castRingHom (ZMod p))))
+    (h : degree poly (p : Int) = .ok ds) :
+    (∀ x ∈ ds, ∀ q : (ZMod p)[X], Irreducible q → q ∣ (toPoly x.1).map (Int.castRingHom (ZMod p)) →
+      q.natDegree = x.2) ∧
+    (∀ q : (ZMod p)[X], Irreducible q → q ∣ (toPoly poly).map (Int.castRingHom (ZMod p)) →
+      ∃ x ∈ ds, q ∣ (toPoly x.1).map (Int.castRingHom (ZMod p)) ∧ x.2 = q.natDegree) := by
+  have : Fact p.Prime := ⟨hp⟩
+  have hnz : GoodNZ p poly := ⟨⟨hred, hcan⟩, hne⟩
+  have hsqf : SqF p (mp p poly) := by
+    intro q hq hd
+    rw [pow_two] at hd
+    exact hq.not_isUnit (hsq q hd)
+  have hs := degree_sound p poly ds hnz hsqf h
+  obtain ⟨h1, _⟩ := NTV.PolyMod.degree_product p poly ds hnz h
+  refine ⟨fun x hx => hs x hx, fun q hq hqd => ?_⟩
+  have hqp : q ∣ pprod p ds := hqd.trans h1.symm.dvd
+  obtain ⟨y, hy, hqy⟩ := (hq.prime.dvd_prod_iff).mp hqp
+  obtain ⟨x, hx, rfl⟩ := List.mem_map.mp hy
+  exact ⟨x, hx, hqy, (hs x hx q hq hqy).symm⟩
+
+example : degree [1, 1, 0, 0, 1, 1] 3 = .ok [([2, 2], 1), ([2, 0, 0, 0, 2], 2)] := by decide +kernel
+
+/-- **C08, irreducibility.** Every returned gᵢ is irreducible over F_p (its image in `(ZMod p)[X]` is
+irreducible), for every prime p, every input and every draw stream -/
+theorem factors_irreducible (p : Nat) (hp : p.Prime) (f : List Int) (pusize : Nat) (s : NTV.Draw.Stream)
+    (fs : Factors) (hpu : p < 2 ^ 64 → pusize = p) (hlen : 2 ^ 64 ≤ p → f.length < 2 ^ 64)
+    (h : factorizeModP f (p : Int) pusize s = .ok fs) :
+    ∀ x ∈ fs, Irreducible ((toPoly x.1).map (Int.castRingHom (ZMod p))) := by
+  have : Fact p.Prime := ⟨hp⟩
+  have hpu' : pusize = p ∨ f.length ≤ p := by
+    rcases Nat.lt_or_ge p (2 ^ 64) with h1 | h1
+    · exact Or.inl (hpu h1)
+    · exact Or.inr (by have := hlen h1; omega)
+  exact (factorizeModP_irreducible_nodup p f pusize s fs hpu' h).1
+
+/-- **C08, distinctness.** The returned gᵢ are pairwise distinct -/
+theorem factors_distinct (p : Nat) (hp : p.Prime) (f : List Int) (pusize : Nat) (s : NTV.Draw.Stream)
+    (fs : Factors) (hpu : p < 2 ^ 64 → pusize = p) (hlen : 2 ^ 64 ≤ p → f.length < 2 ^ 64)
+    (h : factorizeModP f (p : Int) pusize s = .ok fs) : (fs.map Prod.fst).Nodup := by
+  have : Fact p.Prime := ⟨hp⟩
+  have hpu' : pusize = p ∨ f.length ≤ p := by
+    rcases Nat.lt_or_ge p (2 ^ 64) with h1 | h1
+    · exact Or.inl (hpu h1)
+    · exact Or.inr (by have := hlen h1; omega)
+  exact (factorizeModP_irreducible_nodup p f pusize s fs hpu' h).2
+
+/-- **C08.** For every prime p, every f ∈ ℤ[x] and every sequence of random draws: if the mod-p
+factorisation returns the pairs (gᵢ, eᵢ) (it does not when f mod p = 0: the Rust code panics, the run
+is `.error`), then every gᵢ is monic with coefficients in [0, p), canonical, of degree ≥ 1 and
+irreducible over F_p, the gᵢ are pairwise distinct, every eᵢ ≥ 1, and lc(f mod p) · ∏ gᵢ^eᵢ ≡ f
+(mod p). `pusize` is p when p < 2⁶⁴ and arbitrary otherwise. -/
+theorem factorization_correct (p : Nat) (hp : p.Prime) (f : List Int) (pusize : Nat) (s : NTV.Draw.Stream)
+    (fs : Factors) (hpu : p < 2 ^ 64 → pusize = p) (hlen : 2 ^ 64 ≤ p → f.length < 2 ^ 64)
+    (h : factorizeModP f (p : Int) pusize s = .ok fs) :
+    (∀ x ∈ fs, lc x.1 = 1 ∧ Reduced (p : Int) x.1 ∧ Canon x.1 ∧ 2 ≤ x.1.length ∧ 1 ≤ x.2 ∧
+      Irreducible ((toPoly x.1).map (Int.castRingHom (ZMod p)))) ∧
+    (fs.map Prod.fst).Nodup ∧
+    PCong (p : Int) (C (lc (polyMod f p)) * factorProduct fs) (toPoly f) := by
+  refine ⟨fun x hx => ?_, factors_distinct p hp f pusize s fs hpu hlen h,
+    product_identity p hp f pusize s fs hpu hlen h⟩
+  obtain ⟨a, b, c, d, e⟩ := factor_shape p hp f pusize s fs hpu hlen h x hx
+  exact ⟨a, b, c, d, e, factors_irreducible p hp f pusize s fs hpu hlen h x hx⟩
+
+/-- x² + 1 and x are irreducible modulo 3, by the theorem, from the run on x⁴ + x² -/
+example : Irreducible ((toPoly ([1, 0, 1] : List Int)).map (Int.castRingHom (ZMod 3))) :=
+  factors_irreducible 3 (by norm_num) [0, 0, 1, 0, 1] 3 [] _ (fun _ => rfl) (fun h => by omega)
+    (by decide +kernel : factorizeModP [0, 0, 1, 0, 1] ((3 : Nat) : Int) 3 [] = .ok [([1, 0, 1], 1), ([0, 1], 2)])
+    ([1, 0, 1], 1) (by simp)
 
 end NTV.C08
